@@ -110,8 +110,10 @@ impl Stats {
 
 pub fn gen_cfg(prop: &str, rng: &mut Rng) -> GenCfg {
     let mut c = GenCfg::default();
-    if cfg!(feature = "real") {
-        // engine R costs a few hundred microseconds per decision: smaller plans, more of them
+    if cfg!(feature = "real") && !prop.starts_with("X-") && crate::driver::SMALL_PLANS.load(Ordering::Relaxed) {
+        // engine R search costs a few hundred microseconds per decision: smaller plans, more
+        // of them (never for the cross-build digests: every build must generate the same
+        // scenario for a seed there)
         c.max_sys = 8;
         c.max_depth = 2;
         return c;
